@@ -87,15 +87,33 @@ class C18Bounded(Bounded):
         # native expression: normalised values of the parsed network; invalid strings rejected
         class B(TextQueryTestBackend):
             cidr_expression = "{field}|{value}|{network}|{prefixlen}|{netmask}"
-        for spelling in ["10.0.0.0/255.0.0.0", "172.16.5.4", "192.168.1.0/24", "2001:DB8::/32", "2001:0db8:0000::/48", "10.0.0.0/0.255.255.255"]:
+        for spelling in ["10.0.0.0/255.0.0.0", "172.16.5.4", "192.168.1.0/24", "2001:DB8::/32", "2001:0db8:0000::/48", "10.0.0.0/0.255.255.255", "2001:db8::", "fe80::", "::", "::1", "fe80::1:2:3:4"]:
             ev += 1
             nontriv += 1
             n = ipaddress.ip_network(spelling)
             rule = f"title: t\nlogsource:\n  category: c\ndetection:\n  s:\n    f|cidr: '{spelling}'\n  condition: s\n"
-            got = B().convert(SigmaCollection.from_yaml(rule))
             want = f"f|{n}|{n.network_address}|{n.prefixlen}|{n.netmask}"
+            try:
+                got = B().convert(SigmaCollection.from_yaml(rule))
+            except Exception as e:
+                fail("native", f"native CIDR expression for {spelling!r}: {type(e).__name__}: {e} (expected {want})", spelling)
+                continue
             if got != [want]:
                 fail("native", f"native CIDR expression for {spelling!r}: {got} != {[want]}", spelling)
+        # history: the native expression is still used after a negated condition was converted in not-equals mode
+        class NB(TextQueryTestBackend):
+            cidr_expression = "{field}|{value}|{network}|{prefixlen}|{netmask}"
+            convert_not_as_not_eq = True
+        nb = NB()
+        ev += 1
+        nontriv += 1
+        neg = "title: n\nlogsource:\n  category: c\ndetection:\n  s:\n    g: x\n  t:\n    h|startswith: y\n  condition: s and not t\n"
+        cid = "title: t\nlogsource:\n  category: c\ndetection:\n  s:\n    f|cidr: '192.168.1.0/24'\n  condition: s\n"
+        first = NB().convert(SigmaCollection.from_yaml(cid))
+        nb.convert(SigmaCollection.from_yaml(neg))
+        after = [nb.convert(SigmaCollection.from_yaml(cid)), NB().convert(SigmaCollection.from_yaml(cid))]
+        if any(a != first for a in after) or first != ["f|192.168.1.0/24|192.168.1.0|24|255.255.255.0"]:
+            fail("native-history", f"native CIDR expression: {first} on a fresh backend, {after} (same object / new object of the class) after a negated condition was converted in not-equals mode", "history")
         for bad in ["10.0.0.1/24", "300.1.1.1/8", "10.0.0.0/33", "x", "", "::/129", "1.2.3/8"]:
             ev += 1
             try:
@@ -108,5 +126,5 @@ class C18Bounded(Bounded):
         if os.environ.get("C18_DUMP_V6"):
             json.dump(sorted(v6_failing), open(os.environ["C18_DUMP_V6"], "w"))
         return {"evaluations": ev, "ipv6_failing_networks": len(v6_failing), "distinct_nontrivial": nontriv, "failures": fails, "failure_counts": seen,
-                "bound": f"IPv4: 33 prefix lengths x {len(bases)} addresses (set equality on integer ranges); IPv6: 129 prefix lengths x {len(groups)} addresses x <= 9 member addresses; 6 native spellings; 7 invalid strings",
+                "bound": f"IPv4: 33 prefix lengths x {len(bases)} addresses (set equality on integer ranges); IPv6: 129 prefix lengths x {len(groups)} addresses x <= 9 member addresses; 11 native spellings (incl. bare IPv4 / IPv6 addresses), native expression after a negated conversion; 7 invalid strings",
                 "rule": "distinct networks; every network non-trivial", "samples": samples, "exhaustive": False}
